@@ -118,6 +118,7 @@ type FnTrans struct {
 	subRefTerms []string
 	privateAlloc map[ssa.Value]bool
 	privateRefs map[string]bool
+	varAddr     map[types.Object]ssa.Value // local variables that live in memory -> their allocation
 	phase2 bool
 	siteRanks map[*SiteSpec]map[ssa.Instruction]int
 	constArrs map[string]string
@@ -1327,6 +1328,9 @@ func (t *FnTrans) Translate() {
 	sort.Strings(gnames)
 	for _, g := range gnames {
 		t.heapGet(entry, "G."+g, arraySort("Int", t.mode.scalarSort(t.W.ghostType(g))))
+		// ... and so do the ghost sequences (a havoc that runs before the first
+		// use of a sequence in block order must still keep it)
+		t.heapGet(entry, "GA."+g, arraySort("Int", arraySort(t.mode.idxSort(), t.mode.scalarSort(t.W.ghostType(g)))))
 	}
 	// (the allocation frontier G.ALLOCF is created on first use: functions that
 	// neither allocate nor speak about allocation keep their queries free of
